@@ -3,13 +3,13 @@ C08 — Compiler and generator terminate with a result or an error on every inpu
 
 Property theorems only. Model: M-Compile. The linker and the generator's recursions over the
 compiled graph are indexed by `fuel` = nesting depth of calls; `Res.fuel` ≙ Go stack overflow.
-The pinned code does NOT terminate on four input shapes; for each the model's fuel is
-exhausted for EVERY fuel (proved below), which is the finding. The syntactic part (the parser
+The four input shapes on which the code did not terminate (findings D4, D5, D6, D40) are
+repaired; the model follows the repaired code and the former witnesses are regression inputs
+that now end in an error (`former_divergence_rejected`). The syntactic part (the parser
 returns a program or errors) is C11's model; the runtime part (no panic in library code) is
 observed by the harness in child processes.
 -/
-import ThriftVerif.Compile.DivergeProofs
-import ThriftVerif.Compile.TotalProofs
+import ThriftVerif.Compile.RepairedProofs
 
 namespace ThriftVerif.Properties.C08
 open ThriftVerif.Compile
@@ -28,48 +28,45 @@ signatures + 2) + 4`: every `Link` call either descends into a strictly smaller 
 definition or flags a definition never flagged before —
 the linker terminates under every visit order: include cycles, typedef cycles (reported as
 errors by `findTypeCycles`), struct nesting and recursion, service inheritance (also cyclic).
-*Partial*: constants and default values are excluded (`TypesOnly`); for them termination needs
-NoConstCycle ∧ NoStructDefaultCycle and fails without (D4, D40 below). -/
+*Partial*: constants and default values are excluded (`TypesOnly`). With the repaired
+in-progress flags every constant cycle and every self-dependent default is cut by an error, but
+the proof for programs with constants still needs the invariant that the references stored in
+linked values only lead to constants that are completely linked (so that re-casting a stored
+value terminates); it is not done. The harness observes termination on such programs. -/
 theorem compile_total_partial {pre : Bool} {o : Orders} {src : Program} {p : GProg}
     (hg : gather src = some p) (ht : TypesOnly p) :
     ∀ fuel, linkBound p ≤ fuel → compileWith pre fuel o src ≠ .fuel :=
   compileWith_total_typesOnly hg ht
 
-/-- **Non-termination witness (D4).** `const i32 a = b  const i32 b = a`: `compile.Compile` does
-not return, whatever the stack size. -/
-theorem const_cycle_diverges : ∀ fuel, compile fuel [] progD4 = .fuel :=
-  diverges_D4
-
-/-- **Non-termination witness (D40).** `struct S {1: optional S f = {}}`: `compile.Compile` does
-not return. -/
-theorem recursive_struct_default_diverges : ∀ fuel, compile fuel [] progD40 = .fuel :=
-  diverges_D40
-
-/-- **Non-termination witness (D5).** `service A extends B {}  service B extends A {}` compiles,
-and the generator's `addService` recursion on the result does not return. -/
-theorem service_cycle_diverges :
-    ∃ c, compile 100 [] progD5 = .ok c ∧ ∀ fuel, genServices fuel c = .fuel :=
-  ⟨cD5, compile_D5, gen_diverges_D5⟩
-
-/-- **Non-termination witness (D6 at a container type).** `const list<i32> c = c` compiles (a
-constant defined as itself is accepted), and the generator's `ConstantValue` recursion does
-not return. -/
-theorem self_constant_generator_diverges :
-    ∃ c, compile 100 [] progD6list = .ok c ∧ ∀ fuel, genServices fuel c = .fuel :=
-  ⟨cD6list, compile_D6list, gen_diverges_D6list⟩
+/-- **Regression witnesses (D4, D6, D40, D5 — repaired): the former non-terminating inputs end
+in an error.** On `const i32 a = b  const i32 b = a`, `const list<i32> c = c` (and the same
+through a struct default), `struct S {1: optional S f = {}}` and
+`service A extends B {}  service B extends A {}` the linker used to recurse without bound (or
+compile, after which the generator did). With the in-progress flags of the repaired code each
+is rejected by every fuel from 30 on, and never accepted — so the generator is not reached. -/
+theorem former_divergence_rejected :
+    (∀ fuel, 30 ≤ fuel → compile fuel [] progD4 = .err) ∧
+    (∀ fuel, 30 ≤ fuel → compile fuel [] progD6list = .err) ∧
+    (∀ fuel, 30 ≤ fuel → compile fuel [] progD6default = .err) ∧
+    (∀ fuel, 30 ≤ fuel → compile fuel [] progD40 = .err) ∧
+    (∀ fuel, 30 ≤ fuel → compile fuel [] progD5 = .err) ∧
+    (∀ fuel, (compile fuel [] progD5).isOk = false) ∧ (∀ fuel, (compile fuel [] progD6list).isOk = false) :=
+  ⟨(rejected_of_err err_D4).1, (rejected_of_err err_D6list).1, (rejected_of_err err_D6default).1,
+   (rejected_of_err err_D40).1, (rejected_of_err err_D5).1, (rejected_of_err err_D5).2,
+   (rejected_of_err err_D6list).2⟩
 
 /-! Non-vacuity of the total part: a typedef cycle is an error, an include loop with a
-recursive struct and a cyclic service pair compile — all without constants. -/
+recursive struct and a service inheriting across the loop compile — all without constants. -/
 def typedefCycle : Program := oneFileProg true [.typedef (nm "A") (.ref (nm "B")), .typedef (nm "B") (.list 0 (.ref (nm "A")))]
 def includeLoop : Program := ⟨true, [
   .ok [⟨false, nm "b", some 1⟩] [.struct .struct (nm "S") [⟨some 1, nm "f", .optional, .ref (nm "b.S"), none⟩],
     .service (nm "V") (some (nm "b.W")) []],
   .ok [⟨false, nm "a", some 0⟩] [.struct .struct (nm "S") [⟨some 1, nm "f", .optional, .ref (nm "a.S"), none⟩],
-    .service (nm "W") (some (nm "a.V")) []]]⟩
+    .service (nm "W") none []]]⟩
 
 example : (gather typedefCycle).map (fun p => (decide (TypesOnly p), linkBound p)) = some (true, 48) := by decide +kernel
 example : (match compile 48 [] typedefCycle with | .err => true | _ => false) = true := by decide +kernel
-example : (gather includeLoop).map (fun p => (decide (TypesOnly p), linkBound p)) = some (true, 148) := by decide +kernel
-example : (compile 148 [] includeLoop).isOk = true := by decide +kernel
+example : (gather includeLoop).map (fun p => (decide (TypesOnly p), linkBound p)) = some (true, 130) := by decide +kernel
+example : (compile 130 [] includeLoop).isOk = true := by decide +kernel
 
 end ThriftVerif.Properties.C08
